@@ -215,21 +215,6 @@ Fixpoint enc_pol (p : spol) : list N :=
 Definition rpol_is (r : rpol) (m : spol) : bool :=
   match r with RPol p => spol_eqb p m | RPanic => false end.
 
-(* a counter-assignment (the leaves that are on) or None when the two tables agree *)
-Definition cex_equiv (p out : spol) : option (list spol) :=
-  equiv_on (leaves_of p ++ leaves_of out) (fun rho => evalA rho p) (fun rho => evalA rho out).
-Definition cex_age (a : rel_lt) (p out : spol) : option (list spol) :=
-  equiv_on (leaves_of p ++ leaves_of out)
-           (fun rho => evalA (restrict_age a rho) p) (fun rho => evalA rho out).
-Definition cex_lock (n : abs_lt) (p out : spol) : option (list spol) :=
-  equiv_on (leaves_of p ++ leaves_of out)
-           (fun rho => evalA (restrict_lock n rho) p) (fun rho => evalA rho out).
-Definition cex_lift (c : cpol) (out : spol) : option (list spol) :=
-  equiv_on (cleaves_of c ++ leaves_of out) (fun rho => evalC rho c) (fun rho => evalA rho out).
-Definition cex_implies (p q : spol) : option (list spol) :=
-  find (fun on => evalA (rho_of on) p && negb (evalA (rho_of on) q))
-       (assignments (leaves_of p ++ leaves_of q)).
-
 Definition only_passable_older (a : rel_lt) (out : spol) : bool :=
   forallb (fun l => match l with SOlder t => csv_ok t a | _ => true end) (leaves_of out).
 Definition only_passable_after (n : abs_lt) (out : spol) : bool :=
